@@ -319,6 +319,116 @@ def check_float2mpf(r, repo, rule="R13.4"):
                  f"from_man_exp is given precision {got.prec!r}; the float's own precision is {p} (a smaller context precision rounds the significand, the mpf no longer equals the float)", loc(REL, fm))
 
 
+def check_mpf2multiword(r, repo, rule="R13.5"):
+    """Every word of the multiword is mpf2float of a raw mpf built from the fields of x: the sign field of x reaches it, its
+    mantissa is a slice `(man & (mask << o)) >> o` of x's mantissa, its exponent is x's exponent plus the same shift `o`,
+    and the bit-count field is the bit length of the slice (mpmath's raw-tuple invariant).  Decided on statement paths."""
+    from sa.paths import enumerate_paths, calls_in, call_name
+    from sa.defuse import last_def, origins
+
+    f = repo.func(REL, "mpf2multiword")
+    xname = f.args.args[1].arg
+    unp = [st for st in f.body if isinstance(st, ast.Assign) and isinstance(st.targets[0], ast.Tuple) and dotted(st.value) == f"{xname}._mpf_"
+           and len(st.targets[0].elts) == 4 and all(isinstance(e, ast.Name) for e in st.targets[0].elts)]
+    if len(unp) != 1:
+        raise AnalysisError("mpf2multiword: `sign, man, exp, bc = x._mpf_` not found")
+    SIGN, MAN, EXP, _BC = (e.id for e in unp[0].targets[0].elts)
+    # names bound to the context's mpf constructor
+    ctor = {st.targets[0].id for st in f.body if isinstance(st, ast.Assign) and isinstance(st.targets[0], ast.Name) and norm_src(st.value) == f"{xname}.context.mpf"}
+    n_words = 0
+    seen = set()
+    for p in enumerate_paths(f, unroll=(1, 2), limit=20000):
+        for i, e in enumerate(p.events):
+            if e.kind != "stmt":
+                continue
+            for c in calls_in(e.node):
+                if (call_name(c) or "") != "mpf2float" or len(c.args) < 2:
+                    continue
+                w = c.args[1]
+                if isinstance(w, ast.Name) and w.id == xname:
+                    continue  # the whole of x rounded into one word
+                if not (isinstance(w, ast.Call) and isinstance(w.func, ast.Name) and w.func.id in ctor and len(w.args) == 1):
+                    raise AnalysisError(f"mpf2multiword: word `{norm_src(w)}` is neither x nor a raw mpf of its fields")
+                key = f"{REL}::mpf2multiword word `{norm_src(w)}`"
+                t = w.args[0]
+                elts = t.elts if isinstance(t, ast.Tuple) else None
+                og = origins(w, p.events, i)
+                sign_in = any(k == "name" and v == SIGN for k, v in og) or any(isinstance(n_, ast.Name) and n_.id == SIGN for n_ in ast.walk(w)) or (elts is not None and len(elts) == 4 and dotted(elts[0]) == SIGN)
+                detail = None
+                if not sign_in:
+                    detail = (f"the sign field `{SIGN}` of x does not reach the word: the mantissa `{MAN}` of an mpf is unsigned, so every word of a "
+                              "negative value comes out positive and the multiword of -v has the value +v")
+                elif elts is None or len(elts) != 4:
+                    detail = None if elts is not None and len(elts) == 2 else f"`{norm_src(t)}` is not a (sign, man, exp, bc) tuple"
+                else:
+                    mdef = last_def(dotted(elts[1]), p.events, i) if dotted(elts[1]) else None
+                    xdef = last_def(dotted(elts[2]), p.events, i) if dotted(elts[2]) else None
+                    bdef = last_def(dotted(elts[3]), p.events, i) if dotted(elts[3]) else None
+                    if not (mdef and xdef and bdef):
+                        raise AnalysisError("mpf2multiword: fields of a word are not locally defined names")
+                    mv = mdef[1]
+                    # (MAN & (mask << o)) >> o
+                    okm = isinstance(mv, ast.BinOp) and isinstance(mv.op, ast.RShift) and isinstance(mv.left, ast.BinOp) and isinstance(mv.left.op, ast.BitAnd)
+                    o = o2 = None
+                    if okm:
+                        sides = [mv.left.left, mv.left.right]
+                        man_side = [x_ for x_ in sides if dotted(x_) == MAN]
+                        sh = [x_ for x_ in sides if isinstance(x_, ast.BinOp) and isinstance(x_.op, ast.LShift)]
+                        okm = len(man_side) == 1 and len(sh) == 1
+                        if okm:
+                            o, o2 = norm_src(sh[0].right), norm_src(mv.right)
+                    if not okm:
+                        raise AnalysisError(f"mpf2multiword: mantissa slice `{norm_src(mv)}` is not `(man & (mask << o)) >> o`")
+                    xv = xdef[1]
+                    xo = None
+                    if isinstance(xv, ast.BinOp) and isinstance(xv.op, ast.Add):
+                        a_, b_ = xv.left, xv.right
+                        if dotted(a_) == EXP:
+                            xo = norm_src(b_)
+                        elif dotted(b_) == EXP:
+                            xo = norm_src(a_)
+                    bv = bdef[1]
+                    bl_ok = isinstance(bv, ast.Call) and isinstance(bv.func, ast.Attribute) and bv.func.attr == "bit_length" and dotted(bv.func.value) == dotted(elts[1]) and bdef[0] > mdef[0]
+                    # the shift variable must not change between the slice, the exponent and the use
+                    first = min(mdef[0], xdef[0])
+                    changed = any(ev_.kind == "stmt" and any(dotted(tt) == o for tt, _ in _stores(ev_.node)) for ev_ in p.events[first + 1:i])
+                    if o != o2:
+                        detail = f"the slice `{norm_src(mv)}` masks at shift `{o}` but moves the bits down by `{o2}`"
+                    elif xo != o:
+                        detail = f"the word's exponent is `{norm_src(xv)}` while its mantissa slice was shifted down by `{o}`: the word is not man-slice * 2**(exp + {o})"
+                    elif changed:
+                        detail = f"`{o}` is modified between the definition of the slice / exponent and their use"
+                    elif not bl_ok:
+                        detail = f"the bit-count field `{norm_src(bv)}` is not the bit length of the current mantissa slice `{norm_src(elts[1])}` (raw mpf tuples must satisfy bc == man.bit_length())"
+                k2 = (key, detail)
+                if k2 in seen:
+                    continue
+                seen.add(k2)
+                n_words += 1
+                r.ob(rule, key, detail is None, detail or "", loc(REL, w))
+    if n_words == 0:
+        raise AnalysisError("mpf2multiword: no word construction found")
+    # multiword2mpf: the sum runs over every word exactly once
+    g = repo.func(REL, "multiword2mpf")
+    mw = g.args.args[1].arg
+    idx = [norm_src(n.slice) for n in ast.walk(g) if isinstance(n, ast.Subscript) and dotted(n.value) == mw]
+    loops = [n for n in ast.walk(g) if isinstance(n, ast.For)]
+    ok = len(loops) == 1 and sorted(idx) == sorted(["-1", norm_src(loops[0].target)]) and norm_src(loops[0].iter) in (f"reversed(range(len({mw}) - 1))", f"range(len({mw}) - 1)")
+    if not ok:
+        # any other shape that visibly sums every element once
+        ok = len(loops) == 1 and norm_src(loops[0].iter) in (mw, f"reversed({mw})") and not idx
+    r.ob(rule, f"{REL}::multiword2mpf sums every word once", ok,
+         f"indices {idx} over `{norm_src(loops[0].iter) if loops else None}`: not (last word) + (every other word once)", loc(REL, g))
+
+
+def _stores(st):
+    if isinstance(st, ast.Assign):
+        for t in st.targets:
+            yield t, st.value
+    elif isinstance(st, (ast.AugAssign, ast.AnnAssign)):
+        yield st.target, st.value
+
+
 def run(repo, tier):
     r = Report("C13", tier, repo, level="other", design_ref="§3/C13")
     r.explanation = (
@@ -329,6 +439,7 @@ def run(repo, tier):
     r.trusted_base = ["Python ast", "IEEE-754 binary16/32/64 parameters"]
     r.rule("R13.2", "float2expansion subtracts each word in the accumulator's own type (a Python float minus a numpy scalar is computed in the scalar's narrower type)", floor=1)
     r.rule("R13.4", "float2mpf: man * 2**exp == mantissa * 2**exponent identically, normalised to the float's own precision", floor=6)
+    r.rule("R13.5", "mpf2multiword: every word carries x's sign, a slice (man & (mask << o)) >> o of its mantissa, the exponent exp + o and the slice's bit length; multiword2mpf sums every word once", floor=2)
     r.rule("R13.3", "float2fraction decodes the IEEE fields exactly: for every finite bit pattern num/denom equals (-1)^s * significand * 2^exponent", floor=18)
     r.rule("R13.1", "format tables agree with IEEE-754 binary16/32/64 (widths, exponent/significand bits, precision, exponent ranges)", floor=30)
     n = check_format_dicts(r, repo)
@@ -352,4 +463,5 @@ def run(repo, tier):
          "computed in the narrower dtype, the residual rounds to 0 and the expansion loses its tail (value no longer equals the input)", loc(REL, upd[0]))
     check_float2fraction_algebra(r, repo)
     check_float2mpf(r, repo)
+    check_mpf2multiword(r, repo)
     return r
